@@ -1,4 +1,5 @@
 #pragma once
+#include <time.h>
 #include "types.h"
 
 /*
@@ -213,6 +214,8 @@ typedef struct program_s
     char **variable_table;  /* variables defined by this program */
     lpc_type_t *variable_types;	/* variables defined by this program */
     inherit_t *inherit;     /* List of inherited prgms (A_INHERITS area) */
+    time_t newest_source;   /* newest modification time among the source file, the files it includes and the
+                             * sources of everything it inherits (what a saved binary of an heir must not be older than) */
     int total_size;	        /* Sum of all data in this struct */
     int heart_beat;	        /* Index of the heart beat function. -1 means no heart beat */
     /*
